@@ -58,9 +58,22 @@ def law(md, A, B, ctx=None):
     tA = md.parse(A)
     la = A.count("\n")
     bA = blocks(tA)
+    # content nested at the maxNesting limit is cut off (skipped to the end of input) by design: stay well below it
+    mn = int(md.options["maxNesting"])
+    if any(t.level >= mn - 2 for t in tA):
+        if ctx:
+            ctx.count("skipped.at_nesting_limit")
+        return None
     srcP = A + "\nzzz\n"
     probe = trim(blocks(md.parse(srcP)), src_lines(srcP))
     if probe != trim(bA + blocks(md.parse("zzz\n"), la + 1), src_lines(srcP)):
+        # Only a fenced block or an HTML block that is still open at the end of A can swallow a non-indented paragraph that
+        # follows a blank line.  If A's last leaf block is neither, A is closed by construction and the probe itself has shown
+        # that a later block is not parsed independently (the side condition must not be decided by the defect it guards).
+        leaf = next((t for t in reversed(tA) if t.nesting >= 0), None)
+        if leaf is not None and leaf.type not in ("fence", "html_block"):
+            d = first_diff(probe, trim(bA + blocks(md.parse("zzz\n"), la + 1), src_lines(srcP)))
+            return "closed-document-affects-following-paragraph", f"A ends with {leaf.type} yet a paragraph after a blank line is not a new independent top-level block: {d}"
         if ctx:
             ctx.count("skipped.A_open")
         return None
